@@ -6,6 +6,11 @@
   C03_file): the theorems here are about the catalog / filter / join / dump logic on top of ANY row reader.
 -/
 import PgVerif.Proofs.ClusterClass
+import PgVerif.Proofs.ClusterTree
+import PgVerif.Proofs.ClusterHyp
+import PgVerif.Props.C10.Cluster
+import PgVerif.Props.C10.Rows
+import PgVerif.Gen.Cluster
 namespace PgVerif.Props.C01
 open PgVerif PgVerif.Model PgVerif.Proofs PgVerif.Proofs.Cluster List
 open PgVerif.Spec (TableDump DatabaseDump DumpResult Options)
@@ -109,10 +114,292 @@ example :
     ((live.filter (·.filenode != 0)).map (·.filenode)).Nodup ∧ ∀ r ∈ live, r.kind < 256 := by
   refine ⟨by decide, by decide⟩
 
+/-! ## The full dump theorem (extension E1)
+
+From here on the row reader is the real one, `Model.readRows dec` (heap.go:ReadRows, area `rows`), and the files are
+the ones a `Spec.Cluster` is encoded into (`Spec.fsOf`: PostgreSQL's real catalog layouts 12–13 / 14–15 / 16, heaps of
+live and dead row versions over any number of pages).  The scalar decoder `dec` (DecodeType, area `scalars`) stays a
+parameter: the catalog logic needs it only on the seven catalog column types (`CatDec dec`, which the decoder the
+families run satisfies: `catDec_local`); the rendering of user values is `varlenaVal dec`, i.e. C04's business.
+
+Findings carved out by explicit hypotheses: A04 (`SchemaOK`), A03 (`RelReadable.aligned`), A01z
+(`RelReadable.nonempty`).  Conditions every real cluster meets but `Spec.Cluster.WF` does not state are explicit too:
+attnums 1..n without gaps (`RelReadable.dense`), a dumped table's file name is not that of a catalog or of a
+non-heap relation (`DbDumpable.files`), attstattarget within PostgreSQL's range on the 12–15 layouts (in `SchemaOK`). -/
+
+open PgVerif.Spec (Cluster DbContent Layout HeapOf AttrRow ClassRow DbRow)
+
+/-- **ReadRows on pg_class gives ParsePGClass the live rows.**  For every pg_class heap in PostgreSQL's layout (33
+attributes, of which the tool's schema knows the first 17; any number of pages; live and dead row versions) whose
+rows have NUL-free names of at most 63 bytes, 32-bit oids and filenodes, and which fit their pages: the real row reader
+returns one row per live version, in heap order, from which the tool reads the relation's oid, name, filenode and
+relkind.  This is the reader hypothesis `hr`/`hrows` of `C01_dump_partial`, now proved. -/
+theorem C01_class_reader (dec : Dec) (hd : CatDec dec) (cls : HeapOf ClassRow)
+    (hv : ∀ s ∈ cls.versions, Spec.nameOK s.val.name ∧ s.val.oid < 2 ^ 32 ∧ s.val.filenode < 2 ^ 32 ∧ s.infomask < 65536)
+    (hfit : Spec.pagesFit (cls.map fun pg => pg.map fun s => Spec.formRow Spec.pgClassCols (Spec.classVals s.val) s.infomask)) :
+    ∃ rows, readRows dec (Spec.encHeapOf Spec.pgClassCols Spec.classVals cls) schemaPGClass true = .ok rows ∧
+      rows.map infoOfRow = cls.live.map infoOfRel :=
+  readRows_class dec hd cls hv hfit
+
+/-- **Which tables, once, in filenode order — with the real reader** (`C01_dump_partial` without its reader
+hypotheses): for every well-formed database content, every pg_attribute bytes, every file reader, iteration order
+and options. -/
+theorem C01_tables (dec : Dec) (hd : CatDec dec) (π : MapOrder TableInfo) (hπ : ∀ l, π l ~ l) (val : Spec.Val) (o : Options)
+    (l : Layout) (db : DbRow) (d : DbContent) (hwf : d.WF l) (ad : Bytes) (reader : Option FileReader) (ts : List TableDump)
+    (h : dumpDatabaseFromFiles (readRows dec) π (Spec.encHeapOf Spec.pgClassCols Spec.classVals d.cls) ad reader o = .ok ts) :
+    ts.map tableKey = (Spec.expectedDb val o db d).tables.map tableKey := by
+  obtain ⟨hcls, _, hkind, _⟩ := dbWF_parts l d hwf
+  obtain ⟨rows, hr, hrows⟩ := readRows_class dec hd d.cls hcls hwf.2.2.2.2.2.2.1
+  exact C01_dump_partial (readRows dec) π hπ val o db d _ ad reader rows hr hrows hwf.2.2.1 hkind ts h
+
+/-- **ParsePGAttribute, every layout, hinted and auto-detected.**  For every pg_attribute heap encoded in one of
+PostgreSQL's three real layouts (row versions live and dead, any number of pages; names NUL-free ≤ 63 bytes, 32-bit
+oids, 16-bit attnum / attlen) in which no live (attrelid, attnum) pair repeats, and every version hint `ver` for which
+the tool's schema choice is the right one (`SchemaOK`: the hint agrees with the layout; or no hint and, on a 16 layout,
+the first five live rows carry attnum 1..5 — otherwise finding A04 — resp., on a 12–15 layout, the first live row's
+attstattarget is one PostgreSQL accepts): ParsePGAttribute returns, and for every relation oid `k` the entry of the
+returned map is exactly the live rows of `k` with attnum > 0, in attnum order, dead versions and system attributes
+ignored, each with its catalog name, type oid, attnum and attlen (and, as `Align`, the byte the tool mistakes for
+attalign: `toolAlignByte`, finding A03). -/
+theorem C01_attributes (dec : Dec) (hd : CatDec dec) (l : Layout) (att : HeapOf AttrRow) (ver : Nat) (hw : AttHeapWF l att)
+    (hs : SchemaOK l att ver) (hnd : (att.live.map fun a => (a.relid, a.num)).Nodup) :
+    ∃ m, parsePGAttribute (readRows dec) (Spec.encHeapOf (Spec.pgAttributeCols l) (Spec.attrVals l) att) (ver : Int) = .ok m ∧
+      ∀ k, 0 < k → (mapGet m k).getD [] = (Spec.userAttrs att k).map (attrInfoOf (toolAlignByte l)) :=
+  parsePGAttribute_enc dec hd l att ver hw hs hnd
+
+/-- the A04 hypothesis inside `SchemaOK` is the predicate the families tag `kf:A04` with -/
+theorem C01_autodetect_class (d : DbContent) : firstFiveOK d.att.live = Gen.autoDetectOK .v16 d := rfl
+
+/-- **The tool's type names are PostgreSQL's** for every type oid the specification names. -/
+theorem C01_typenames : ∀ p ∈ Spec.typeNames, Model.typeName (p.1 : Int) = strBytes p.2 := typeNames_agree
+
+/-- **Columns of every dumped table = the catalog join.**  For every well-formed database content in every layout and
+every options / version hint with the right schema choice (`SchemaOK`, A04 carved out), whatever the heap files and
+the file reader are: the tables DumpDatabaseFromFiles returns are the specification's tables and each carries exactly
+the specification's columns — the live pg_attribute rows of the relation's oid with attnum > 0, in attnum order, with
+catalog name, type oid and (for the type oids the specification names; the others' text is blanked by `normCol`)
+PostgreSQL's type name. -/
+theorem C01_columns (dec : Dec) (hd : CatDec dec) (π : MapOrder TableInfo) (hπ : ∀ l, π l ~ l) (l : Layout)
+    (d : DbContent) (o : Options) (db : DbRow) (val : Spec.Val) (reader : Option FileReader) (hwf : d.WF l)
+    (hs : SchemaOK l d.att o.pgVersion) (ts : List TableDump)
+    (h : dumpDatabaseFromFiles (readRows dec) π (Spec.encHeapOf Spec.pgClassCols Spec.classVals d.cls)
+          (Spec.encHeapOf (Spec.pgAttributeCols l) (Spec.attrVals l) d.att) reader o = .ok ts) :
+    ts.map tableCols = (Spec.expectedDb val o db d).tables.map fun t => (tableKey t, t.columns) :=
+  dumpDatabase_columns dec hd π hπ l d o db val reader hwf hs ts h
+
+/-- **Which databases are dumped.**  For every well-formed cluster (pg_database in the 12–14 or the 15–16 layout,
+live and dead rows, any number of pages) the databases DumpDataDir lists on the cluster's file tree are, with oid and
+name and in pg_database heap order, exactly the live databases whose name does not start with `template`, that equal
+the database filter if one is set, and that have a directory — whatever the table-level content, for every iteration
+order and all options. -/
+theorem C01_databases (dec : Dec) (hd : CatDec dec) (π : MapOrder TableInfo) (c : Cluster) (hwf : c.WF) (o : Options)
+    (val : Spec.Val) (r : DumpResult) (h : dumpDataDir (readRows dec) π (Spec.fsOf c) o = .ok (some r)) :
+    r.map dbKey = (Spec.expectedDump val c o).map dbKey :=
+  dumpDataDir_databases dec hd π c o val (Spec.fsOf c) hwf (treeOf_fsOf c hwf.2.2.2.2.2.1) r h
+
+/-- **Rows of one table = the live rows of its heap file, decoded.**  For a live ordinary table of a well-formed
+database whose heap is readable (`RelReadable`: attnums without gaps, the tool's alignment fallback is the true
+alignment — else A03 —, a table without columns has no live row — else A01z), dumpTable called with the catalog's
+columns and a reader serving the encoded heap returns the specification's table: rows = the row versions of the heap
+whose own hint bits say live, in page then line-pointer order, each decoded to what was stored (`Spec.rowOf`: NULLs,
+every varlena form, attributes beyond the stored count), `RowCount` = their number; none when schema-only. -/
+theorem C01_rows (dec : Dec) (l : Layout) (d : DbContent) (o : Options) (r : ClassRow) (rd : FileReader)
+    (hr : r ∈ d.cls.live) (hkind : r.kind = 114) (hfn : r.filenode ≠ 0) (hwf : d.WF l)
+    (hreader : o.listOnly = false →
+      rd r.filenode = (d.heaps.lookup r.filenode).map (Spec.encRowPages (Spec.colsOfFilenode d r.filenode)))
+    (hok : ∀ pages, d.heaps.lookup r.filenode = some pages → o.listOnly = false → pages ≠ [] → RelReadable l d r)
+    (t : TableDump)
+    (h : dumpTable (readRows dec) r.filenode (infoOfRel r) ((Spec.userAttrs d.att r.oid).map (attrInfoOf (toolAlignByte l))) (some rd) o = .ok t) :
+    normTable t = Spec.expectedTable (varlenaVal dec) d o r :=
+  dumpTable_spec dec l d o r rd hr hkind hfn hwf hreader hok t h
+
+/-- **C01, in full: the dump of a cluster is the cluster's logical content.**  For every well-formed cluster `c`
+(`Spec.Cluster.WF`: PostgreSQL 12–16, any databases, relations of every kind, catalog and user heaps of live and dead
+row versions over any number of pages, inline values of every form), all options `o` (database filter, table filter,
+schema-only, skip-system, version hint), every iteration order of Go's maps and every scalar decoder that handles the
+catalog column types — provided every database that is dumped is `DbDumpable` (the schema choice is right: not A04;
+its dumped tables' heaps are readable: not A03, not A01z, attnums dense; their files are theirs alone):
+whenever DumpDataDir on the cluster's file tree returns, its result is — database by database in pg_database order,
+table by table in filenode order, column by column, row by row — `Spec.expectedDump`: every non-template database
+passing the filter that has a directory; in it every ordinary table (relkind `r`, relfilenode ≠ 0) passing the
+system-table and name filters, each exactly once; its columns from the join of pg_attribute by relation oid (attnum
+> 0, attnum order); its rows exactly the live row versions of its heap file with the values that were stored
+(rendered by `varlenaVal dec`); `RowCount` = number of rows; no rows when schema-only.  (`normDb` blanks the type-name
+text of type oids the specification has no name for; for the others `C01_typenames` applies.) -/
+theorem C01_dump (dec : Dec) (hd : CatDec dec) (π : MapOrder TableInfo) (hπ : ∀ l, π l ~ l) (c : Cluster) (hwf : c.WF) (o : Options)
+    (hdump : ∀ db ∈ c.dbs.live, Spec.selectedDb o db = true → ∀ d, c.content.lookup db.oid = some d → DbDumpable c.layout d o)
+    (r : DumpResult) (h : dumpDataDir (readRows dec) π (Spec.fsOf c) o = .ok (some r)) :
+    r.map normDb = Spec.expectedDump (varlenaVal dec) c o :=
+  dumpDataDir_spec dec hd π hπ c o (Spec.fsOf c) hwf (treeOf_fsOf c hwf.2.2.2.2.2.1) hdump r h
+
+/-- … and DumpDataDir does return on such a tree (never the read error, never a fault) for every scalar decoder that
+returns on every input — so `C01_dump` is not vacuous. -/
+theorem C01_dump_returns (dec : Dec) (hd : CatDec dec) (htot : C10.Rows.TotalDec dec) (π : MapOrder TableInfo) (hπ : ∀ l, π l ~ l)
+    (c : Cluster) (hwf : c.WF) (o : Options)
+    (hdump : ∀ db ∈ c.dbs.live, Spec.selectedDb o db = true → ∀ d, c.content.lookup db.oid = some d → DbDumpable c.layout d o) :
+    ∃ r, dumpDataDir (readRows dec) π (Spec.fsOf c) o = .ok (some r) ∧ r.map normDb = Spec.expectedDump (varlenaVal dec) c o := by
+  obtain ⟨r, hr⟩ := C10.Cluster.C10_total_dumpDataDir (readRows dec) (fun data cols vis => C10.Rows.C10_total_readRows dec htot data cols vis)
+    π (Spec.fsOf c) o
+  cases r with
+  | none =>
+    exfalso
+    unfold dumpDataDir at hr
+    rw [(treeOf_fsOf c hwf.2.2.2.2.2.1).global] at hr
+    simp only at hr
+    cases hp : parsePGDatabase (readRows dec) (Spec.encHeapOf (Spec.pgDatabaseCols c.pgVersion) (Spec.dbVals c.pgVersion) c.dbs) with
+    | error e => simp [hp] at hr
+    | ok dbs =>
+      simp only [hp, ok_bind] at hr
+      cases hc : collectM (dumpDb (readRows dec) π (Spec.fsOf c) o) dbs with
+      | error e => simp [hc] at hr
+      | ok x => simp [hc] at hr
+  | some r => exact ⟨r, hr, C01_dump dec hd π hπ c hwf o hdump r hr⟩
+
+/-- **The form checked at run time.**  Family `cluster_dump` evaluates `Model.ClusterHyp.dumpHypB` (the executable form
+of the `DbDumpable` hypothesis) on every generated cluster and option combination and tags the case `hyp:dump=ok`
+when it holds together with the Boolean mirror of `Cluster.WF`; on those cases the theorem says the model's dump is the
+specification's. -/
+theorem C01_dump_checked (dec : Dec) (hd : CatDec dec) (π : MapOrder TableInfo) (hπ : ∀ l, π l ~ l) (c : Cluster) (hwf : c.WF)
+    (o : Options) (hb : Model.ClusterHyp.dumpHypB c o = true)
+    (r : DumpResult) (h : dumpDataDir (readRows dec) π (Spec.fsOf c) o = .ok (some r)) :
+    r.map normDb = Spec.expectedDump (varlenaVal dec) c o :=
+  C01_dump dec hd π hπ c hwf o (dumpHypB_sound c o hb) r h
+
+/-- the decoder the C01 families execute satisfies the decoder hypothesis -/
+theorem C01_catDec_local : CatDec LocalDec.dec := catDec_local
+
+/-- where the A03 hypothesis `RelReadable.aligned` comes from: on every layout the tool ends up with its
+`typeAlign(typid, attlen)` fallback (for every type modifier PostgreSQL produces), so the hypothesis says
+`typeAlign a.typid a.len = a.align` — the complement of the recorded class A03. -/
+theorem C01_toolAlign (l : Layout) (a : AttrRow) (h : l ≠ .v16 ∨ (-16777216 ≤ a.typmod ∧ a.typmod < 16777216)) :
+    colAlign (toolColumn (toolAlignByte l) a) = typeAlign a.typid a.len :=
+  toolAlign_fallback l a h
+
+/-! ### non-vacuity: a concrete cluster satisfies every hypothesis of `C01_dump` -/
+
+def exAttr (relid : Nat) (num : Int) (name : Bytes) (typid : Nat) (len : Int) (align : Nat) : Spec.Stored AttrRow :=
+  ⟨{ relid, name, typid, len, num, align }, 0x0900⟩
+
+def exHeap : List (List Spec.RowV) :=
+  [[{ vals := [some (.fixed (le 4 7)), some (.short [97])], natts := 2, infomask := 0x0900 },
+    { vals := [some (.fixed (le 4 8)), none], natts := 2, infomask := 0x0500 }]]
+
+def exDb : DbContent :=
+  { cls := [[⟨{ oid := 16384, name := [116], kind := 114, filenode := 16390 }, 0x0900⟩]],
+    att := [[exAttr 16384 1 [105, 100] 23 4 4, exAttr 16384 2 [110] 25 (-1) 4]],
+    heaps := [(16390, exHeap)], raws := [] }
+
+/-- a PostgreSQL 14 cluster: `template1` (no directory) and database `pg` with one table `t (id int4, n text)` holding
+one live row (7, 'a') and one dead row (8, NULL) -/
+def exCluster : Cluster :=
+  { pgVersion := 14,
+    dbs := [[⟨{ oid := 1, name := [116, 101, 109, 112, 108, 97, 116, 101, 49], isTemplate := true }, 0x0B00⟩,
+             ⟨{ oid := 5, name := [112, 103] }, 0x0900⟩]],
+    content := [(5, exDb)] }
+
+set_option maxRecDepth 20000 in
+theorem exDb_WF : exDb.WF .v14 := by
+  unfold DbContent.WF
+  refine ⟨by decide, by decide, by decide, by decide, by decide, by decide, by decide, by decide, by decide, ?_⟩
+  intro h hh
+  have : h = (16390, exHeap) := by simpa [exDb] using hh
+  subst this
+  refine ⟨by decide, ?_⟩
+  simp only
+  refine ⟨by decide, by decide, by decide⟩
+
+set_option maxRecDepth 20000 in
+theorem exCluster_WF : exCluster.WF := by
+  unfold Cluster.WF
+  have hl : Spec.locale = [101, 110, 95, 85, 83, 46, 85, 84, 70, 45, 56] := by unfold Spec.locale; rw [strBytes_eq]; rfl
+  refine ⟨by decide, by decide, by decide, by decide, ?_, by decide, ?_⟩
+  · simp only [exCluster, Spec.dbVals, hl]
+    decide
+  intro p hp
+  have : p = (5, exDb) := by simpa [exCluster] using hp
+  subst this
+  exact exDb_WF
+
+/-- the example database is dumpable without a version hint (auto-detection) and with the true one -/
+theorem exDb_dumpable (o : Options) (hv : o.pgVersion = 0 ∨ o.pgVersion = 14) : DbDumpable .v14 exDb o := by
+  refine ⟨?_, ?_, ?_⟩
+  · rcases hv with hv | hv <;> rw [hv]
+    · refine Or.inr (Or.inr ⟨by decide, Or.inr ⟨by decide, ?_⟩⟩)
+      intro a ha
+      have : a = (exAttr 16384 1 [105, 100] 23 4 4).val := by
+        have hlive : exDb.att.live.head? = some (exAttr 16384 1 [105, 100] 23 4 4).val := by decide
+        rw [hlive] at ha
+        injection ha with ha
+        exact ha.symm
+      subst this
+      decide
+    · exact Or.inr (Or.inl ⟨by decide, by decide, by decide⟩)
+  · intro r hr _
+    have hlive : exDb.cls.live = [{ oid := 16384, name := [116], kind := 114, filenode := 16390 }] := by decide
+    rw [hlive] at hr
+    have : r = { oid := 16384, name := [116], kind := 114, filenode := 16390 } := by simpa using hr
+    subst this
+    exact ⟨by decide, by decide, rfl⟩
+  · intro r hr _ pages _ _ _
+    have hlive : exDb.cls.live = [{ oid := 16384, name := [116], kind := 114, filenode := 16390 }] := by decide
+    rw [hlive] at hr
+    have : r = { oid := 16384, name := [116], kind := 114, filenode := 16390 } := by simpa using hr
+    subst this
+    have hu : Spec.userAttrs exDb.att 16384 = [(exAttr 16384 1 [105, 100] 23 4 4).val, (exAttr 16384 2 [110] 25 (-1) 4).val] := by decide
+    refine ⟨?_, ?_, ?_⟩
+    · show DenseFrom 0 (Spec.userAttrs exDb.att 16384)
+      rw [hu]
+      exact ⟨rfl, rfl, trivial⟩
+    · show ∀ a ∈ Spec.userAttrs exDb.att 16384, _
+      rw [hu]
+      intro a ha
+      rw [toolAlign_fallback _ a (Or.inl (by decide))]
+      have : a = (exAttr 16384 1 [105, 100] 23 4 4).val ∨ a = (exAttr 16384 2 [110] 25 (-1) 4).val := by simpa using ha
+      rcases this with rfl | rfl <;> decide
+    · show Spec.userAttrs exDb.att 16384 = [] → _
+      rw [hu]
+      intro h; cases h
+
+example (o : Options) (hv : o.pgVersion = 0 ∨ o.pgVersion = 14) :
+    ∀ db ∈ exCluster.dbs.live, Spec.selectedDb o db = true → ∀ d, exCluster.content.lookup db.oid = some d →
+      DbDumpable exCluster.layout d o := by
+  intro db _ _ d hd
+  have hlk : ∀ k, exCluster.content.lookup k = some d → d = exDb := by
+    intro k hk
+    have := lookup_mem_pair _ _ _ hk
+    simp only [exCluster, List.mem_singleton, Prod.mk.injEq] at this
+    exact this.2
+  rw [hlk _ hd]
+  exact exDb_dumpable o hv
+
+/-- the run-time check accepts the example cluster (no hint; true hint with a table filter `T`) -/
+example : Model.ClusterHyp.dumpHypB exCluster {} = true ∧ Model.ClusterHyp.dumpHypB exCluster { pgVersion := 14, tableFilter := [84] } = true := by
+  simp only [Model.ClusterHyp.dumpHypB, Model.ClusterHyp.dumpableB, Spec.selectedDb, Spec.isTemplateName, Spec.selectedRel, strBytes_eq]
+  decide
+
+/-- … and the theorem's right-hand side on it is not trivial: database 5 with table `t`, two columns, one live row
+(the dead row and `template1` are not reported) -/
+example : ((Spec.expectedDump (fun b _ => pure (.int b.length)) exCluster {}).map fun d =>
+      (d.oid, d.tables.map fun t => (t.name, t.columns.length, t.rowCount))) = [(5, [([116], 2, 1)])] := by
+  delta Spec.expectedDump Spec.expectedDb Spec.selectedDb Spec.isTemplateName Spec.selectedRel
+  simp only [strBytes_eq]
+  decide
+
 #print axioms C01_rowcount
 #print axioms C01_dump_partial
 #print axioms C01_rowcount_files
 #print axioms C01_listonly_norows
 #print axioms C01_listonly
+#print axioms C01_class_reader
+#print axioms C01_tables
+#print axioms C01_attributes
+#print axioms C01_typenames
+#print axioms C01_columns
+#print axioms C01_databases
+#print axioms C01_rows
+#print axioms C01_dump
+#print axioms C01_dump_returns
+#print axioms C01_dump_checked
+#print axioms exCluster_WF
 
 end PgVerif.Props.C01
